@@ -378,6 +378,8 @@ impl Scenario for PairScn {
                 for dir in 0..2u8 {
                     if matches!(h.pair.assets[dir as usize], AssetInfo::NativeToken { .. }) {
                         v.push(Act::BadSwap { user: MALLORY.to_string(), dir });
+                        // (dir + 2: the same message with no coins attached at all)
+                        v.push(Act::BadSwap { user: MALLORY.to_string(), dir: dir + 2 });
                     }
                 }
             }
@@ -502,6 +504,8 @@ impl Scenario for PairScn {
             Act::BadSwap { user, dir } => {
                 // a swap whose message declares a tenth of the reserve of a native asset while one unit is attached
                 let (res, _) = pre.unwrap();
+                let nothing_attached = *dir >= 2;
+                let dir = &(*dir & 1);
                 let offer = &p.assets[*dir as usize];
                 let ask = &p.assets[1 - *dir as usize];
                 let declared = (res[*dir as usize] / 10).max(2);
@@ -511,7 +515,7 @@ impl Scenario for PairScn {
                         user,
                         &p.addr,
                         &white_whale_std::pool_network::pair::ExecuteMsg::Swap { offer_asset: asset(offer, declared), belief_price: loose_belief(), max_spread: Some(cosmwasm_std::Decimal::percent(50)), to: None },
-                        &[cosmwasm_std::coin(1, denom)],
+                        &if nothing_attached { vec![] } else { vec![cosmwasm_std::coin(1, denom)] },
                     ),
                     _ => return,
                 };
@@ -520,7 +524,7 @@ impl Scenario for PairScn {
                         cx.count("bad_swap:accepted");
                         let ua = [info_balance(w, offer, user), info_balance(w, ask, user)];
                         cx.check("swap.user_deltas", ub[0] - ua[0] == declared, || {
-                            format!("swap declaring an offer of {} with 1 unit attached was accepted: the user paid {} and received {}", declared, ub[0] - ua[0], ua[1] - ub[1])
+                            format!("swap declaring an offer of {} with {} attached was accepted: the user paid {} and received {}", declared, if nothing_attached { "nothing" } else { "1 unit" }, ub[0] - ua[0], ua[1] - ub[1])
                         });
                     }
                     Err(_) => cx.count("bad_swap:rejected"),
